@@ -3,5 +3,6 @@
 SPECIFICATION CSpec
 CONSTANTS
   LockTip = FALSE
+  MaxCrashes = 1
 INVARIANT CInv
 CHECK_DEADLOCK FALSE
